@@ -317,6 +317,8 @@ macro_rules! strict_backend {
                     "ff.initial" => val(o_ff(&FF::initial(us(&a["a"])))),
                     "ff.to_initial" => val(o_ff(&ff(&a["f"]).to_initial())),
                     "ff.terminal" => val(o_ff(&FF::terminal(us(&a["a"])))),
+                    "ff.initial_object" => val(nat(<FF as Coproduct>::initial_object())),
+                    "ff.unit" => val(nat(<FF as Monoidal>::unit())),
                     "ff.constant" => val(o_ff(&FF::constant(us(&a["a"]), us(&a["x"]), us(&a["b"])))),
                     "ff.inj0" => val(o_ff(&FF::inj0(us(&a["a"]), us(&a["b"])))),
                     "ff.inj1" => val(o_ff(&FF::inj1(us(&a["a"]), us(&a["b"])))),
